@@ -133,6 +133,20 @@ static GGeom coverage(Rng& r, Out& out) {
     out.count("coverage_cells", (long) g.elems.size());
     return g; }
 
+// the same point sets with many vertices: every coordinate times m, every edge of the chosen operand cut into m equal lattice pieces.
+// Lines / rings with more than 20 vertices and partly overlapping envelopes are what reaches OverlayNG's clipping and line limiting.
+static void scaleGeom(GGeom& g, long m, bool subdivide) {
+    for (auto& e : g.elems) for (auto& ring : e.rings) {
+        std::vector<IPt> o;
+        for (size_t i = 0; i < ring.size(); i++) {
+            IPt p{ring[i].x * m, ring[i].y * m};
+            if (subdivide && e.kind != 0 && i + 1 < ring.size()) {
+                long dx = ring[i + 1].x - ring[i].x, dy = ring[i + 1].y - ring[i].y;
+                for (long j = 0; j < m; j++) o.push_back(IPt{p.x + j * dx, p.y + j * dy}); }
+            else o.push_back(p); }
+        ring.swap(o); }
+}
+
 int main(int argc, char** argv) {
     if (argc < 3) return 2;
     std::string stream = argv[1];
@@ -190,6 +204,10 @@ int main(int argc, char** argv) {
             gen.setPartner(A, r.chance(80) ? 55 : 0);
             B = r.chance(4) ? A : gen.geom(kind(), true, false);
             if (r.chance(50)) std::swap(A, B); }
+        long scaleM = 1;
+        if (!cov && r.chance(dbl ? 4 : 7)) {
+            long m = r.range(5, 9); int which = (int) r.below(2); scaleM = m;          // one operand gets the vertices (the exact oracle is quadratic in them)
+            scaleGeom(A, m, which == 0); scaleGeom(B, m, which == 1); out.count("many_vertices"); }
         std::string ta, tb; Xform t; DX d;
         if (!dbl) { t = gen.xform(); ta = GridGen::geomTok(A, t); tb = GridGen::geomTok(B, t); }
         else {
@@ -201,7 +219,7 @@ int main(int argc, char** argv) {
             d.r = &r; d.ulpPct = (!cov && r.chance(35)) ? 30 : 0; if (d.ulpPct) out.count("ulp_perturbed");
             ta = geomTokD(A, d);
             if (!cov && r.chance(15)) {       // near-coincident copy: B = A displaced by a relative 1e-15 .. 1e-8 of the coordinate magnitude
-                double m = std::max(std::fabs(d.tx), std::fabs(d.ty)) + mag * gen.span; DX d2 = d; d2.noise = m * std::pow(10.0, -15.0 + 7.0 * r.unit()); B = A; out.count("near_coincident_copy");
+                double m = std::max(std::fabs(d.tx), std::fabs(d.ty)) + mag * gen.span * (double) scaleM; DX d2 = d; d2.noise = m * std::pow(10.0, -15.0 + 7.0 * r.unit()); B = A; out.count("near_coincident_copy");
                 tb = geomTokD(B, d2); }
             else tb = geomTokD(B, d); }
         // a collection wrapped in a one-element collection is the same point set and must take the same route
@@ -223,6 +241,7 @@ int main(int argc, char** argv) {
             if (r.chance(10)) ops.push_back("uu:gab");
             if (!dbl && r.chance(20)) {      // clip by a lattice rectangle (axis-parallel under the 8 lattice symmetries)
                 long x0 = r.range(-1, gen.span - 1), y0 = r.range(-1, gen.span - 1), x1 = r.range((int) x0 + 1, gen.span + 1), y1 = r.range((int) y0 + 1, gen.span + 1);
+                x0 *= scaleM; y0 *= scaleM; x1 *= scaleM; y1 *= scaleM;
                 double ax, ay, bx, by; t.apply(IPt{x0, y0}, ax, ay); t.apply(IPt{x1, y1}, bx, by);
                 ops.push_back("clip:a:" + hex(std::min(ax, bx)) + ":" + hex(std::min(ay, by)) + ":" + hex(std::max(ax, bx)) + ":" + hex(std::max(ay, by))); }
         }
